@@ -3,7 +3,7 @@
    context cancellation and goroutine exit are primitives of the model. *)
 From FunV Require Import Base.Tac Base.ListX Model.Pipelines
   Proofs.Pipelines_conserve Proofs.Pipelines_quiesce Proofs.Pipelines_nets Proofs.Pipelines_complete Proofs.Pipelines_closer
-  Proofs.Pipelines_nodrop.
+  Proofs.Pipelines_nodrop Proofs.Pipelines_shared.
 
 (* every step of every network permutes
    remaining input ++ items in goroutines' hands ++ channel buffers ++ delivered ++ dropped *)
@@ -119,3 +119,29 @@ Theorem C01_generate_failure_drops_in_flight :
   run_labels (gen_net 2 GEof) gen_fail_labels (gen_init 2 [1]%Z) = None.
 Proof. split; [exact gen_fail_drops_in_flight|exact gen_eof_cannot_drop_in_flight]. Qed.
 Print Assumptions C01_generate_failure_drops_in_flight.
+
+(* several fan-out stages over ONE concurrency-safe input. In the networks the read of the input is ISrc:
+   Iterator.ReadOne, one atomic step. m stages over a channel-backed iterator are m concurrent ReadOne
+   callers (readone_net): conservation, for every m, buffer size, input, interleaving *)
+Theorem C01_shared_input_conservation :
+  forall m cap input s,
+    reach (readone_net m) (readone_init m cap input) s ->
+    Permutation (concat (s_srcs s) ++ hands (s_procs s) ++ bufs (s_chans s) ++ s_deliv s ++ s_drop s) input.
+Proof. exact shared_input_conservation. Qed.
+Print Assumptions C01_shared_input_conservation.
+
+(* what the atomicity of ReadOne is for: any number of readers, any interleaving of atomic reads - what was
+   delivered (in order of delivery) followed by what is left IS the input *)
+Theorem C01_atomic_reads_exactly_once :
+  forall input ls s,
+    atomic_only ls -> sh_run ls (sh_init input) = Some s -> map snd (sh_out s) ++ sh_src s = input.
+Proof. exact atomic_reads_exactly_once. Qed.
+Print Assumptions C01_atomic_reads_exactly_once.
+
+(* ... whereas two readers that walk the input with Next(ctx) ; Value() - the hand-off goes through the
+   iterator's unsynchronised value field - lose one item and deliver another twice *)
+Theorem C01_next_value_hand_off_refuted :
+  exists s, sh_run [SNext 0; SNext 1; SValue 0; SValue 1] (sh_init [1; 2]%Z) = Some s /\
+            sh_src s = [] /\ sh_out s = [(0, 2%Z); (1, 2%Z)].
+Proof. exact next_value_loses_and_duplicates. Qed.
+Print Assumptions C01_next_value_hand_off_refuted.
